@@ -251,6 +251,29 @@ func (env *canonEnv) canonStmt(s ast.Stmt) string {
 			}
 		}
 		return strings.Join(parts, ";")
+	case *ast.SwitchStmt:
+		out := "switch("
+		if x.Init != nil {
+			out += env.canonStmt(x.Init) + ";"
+		}
+		if x.Tag != nil {
+			out += env.canon(x.Tag)
+		}
+		out += "){"
+		for _, cc := range x.Body.List {
+			cl := cc.(*ast.CaseClause)
+			if cl.List == nil {
+				out += "default:"
+			} else {
+				var es []string
+				for _, e := range cl.List {
+					es = append(es, env.canon(e))
+				}
+				out += "case " + strings.Join(es, ",") + ":"
+			}
+			out += env.canonStmts(cl.Body) + ";"
+		}
+		return out + "}"
 	case *ast.ForStmt:
 		out := "for("
 		if x.Init != nil {
